@@ -89,7 +89,7 @@ func main() {
 			counts := map[string]int{}
 			for _, r := range mr {
 				counts[r.Status]++
-				if r.Status == "missed" || r.Status == "noisy" || r.Status == "error" {
+				if r.Status == "missed" || r.Status == "noisy" || r.Status == "error" || r.Status == "skipped" {
 					fmt.Printf("SELFTEST-%s: %s expect=%v fired=%v %s\n", strings.ToUpper(r.Status), r.Name, r.Expect, r.Fired, r.Message)
 				}
 			}
